@@ -3,6 +3,8 @@
 package extendeddaemonset
 
 import (
+	"time"
+
 	apiequality "k8s.io/apimachinery/pkg/api/equality"
 
 	datadoghqv1alpha1 "github.com/DataDog/extendeddaemonset/api/v1alpha1"
@@ -50,4 +52,49 @@ func ZZ_C13_storedTemplateIsTheTemplate() {
 	zzReconcile(zzReconciler(c), "ns", "foo")
 	nondet.Assert("C13.stored.reused", c.Count("create", "ExtendedDaemonSetReplicaSet") == 1)
 	nondet.Reach("C13.stored.with-namespace", ds.Spec.Template.Namespace == "ns2" && creates == 1)
+}
+
+// ZZ_C13_sameNameInAnotherNamespace: "For each distinct pod template of an ExtendedDaemonSet at most one
+// replica set is created while one exists ... never deletes ... any other only when ..." — the replica
+// sets of an ExtendedDaemonSet are those of its own namespace.  ns/foo has template B and no replica
+// set yet; ns2 holds a replica set of an ExtendedDaemonSet also called foo (same name label) with
+// template B or A, reporting pods or not yet.  Reconciling ns/foo creates its own replica set for B in
+// ns, names it in its status, and neither adopts, counts nor deletes the one in ns2.
+func ZZ_C13_sameNameInAnotherNamespace() {
+	ds := zzEDS("ns", "foo", "B", nil)
+	other := zzEDS("ns2", "foo", "B", nil)
+	otherTpl := "B"
+	if nondet.Bool("otherHasAnotherTemplate") {
+		otherTpl = "A"
+	}
+	rsOther := zzRS(other, otherTpl, "foo-x", nondet.Base().Add(-time.Hour))
+	if nondet.Bool("otherReportsPods") {
+		rsOther.Status.Desired, rsOther.Status.Current, rsOther.Status.Ready, rsOther.Status.Available = 3, 3, 3, 3
+	}
+	c := fakeapi.New()
+	c.EDS = append(c.EDS, ds, other)
+	c.ERS = append(c.ERS, rsOther)
+	for i := 0; i < 2; i++ {
+		_, err := zzReconcile(zzReconciler(c), "ns", "foo")
+		nondet.Assert("C13.ns.noerror", err == nil)
+	}
+	st := zzStoredEDS(c, "ns", "foo")
+	own := 0
+	otherAlive := false
+	for _, rs := range c.ERS {
+		if rs.Namespace == "ns" {
+			own++
+			nondet.Assert("C13.ns.own-replicaset-is-the-active-one", st.Status.ActiveReplicaSet == rs.Name && rs.Spec.TemplateGeneration == zzHash("B"))
+		}
+		if rs.Namespace == "ns2" && rs.Name == "foo-x" {
+			otherAlive = true
+		}
+	}
+	nondet.Assert("C13.ns.one-own-replicaset-created", own == 1)
+	nondet.Assert("C13.ns.other-namespace-untouched", otherAlive)
+	nondet.Assert("C13.ns.counts-own-only", st.Status.Current == 0 && st.Status.Ready == 0 && st.Status.Available == 0)
+	for _, e := range c.Writes() {
+		nondet.Assert("C13.ns.writes-stay-in-the-namespace", e.Namespace == "ns")
+	}
+	nondet.Reach("C13.ns.same-template-elsewhere", otherTpl == "B" && own == 1)
 }
